@@ -486,6 +486,8 @@ class Sandbox:
         """ Removes the history of any previous executions. """
         self._context_group_start.clear()
         self._context.clear()
+        # Context ids are positions in the history
+        self._next_context_id = 0
 
     ############################################################################
     # Tracing
